@@ -15,6 +15,10 @@ const RANS64_L: u64 = 1u64 << 16; // Lower bound: 65536 (optimized for 64-bit)
 const TF_SHIFT: u32 = 12; // Frequency table size: 4096
 const TOTFREQ: u32 = 1u32 << TF_SHIFT; // Total frequency: 4096
 const BLOCK_SIZE: usize = 4; // 4-byte read/write operations
+/// Upper bound for the initial output reservation of the decoders. `output_length` usually
+/// comes from an untrusted size field and rANS puts no bound on the expansion ratio, so the
+/// buffer is never sized from it directly; larger outputs grow as symbols are decoded.
+const MAX_OUTPUT_PREALLOC: usize = 1 << 20;
 
 /// 64-bit rANS state with hardware optimizations
 #[derive(Debug, Clone, Copy, PartialEq, Eq)]
@@ -550,14 +554,36 @@ impl<P: ParallelVariant> Rans64Decoder<P> {
 
         let mut state = Rans64State::from_state(initial_state);
         let mut pos = data_len - 8;
-        let mut result = Vec::with_capacity(output_length);
+        let mut result = Self::new_output(output_length)?;
 
         for _ in 0..output_length {
             let symbol = self.decode_symbol(&mut state, encoded_data, &mut pos)?;
-            result.push(symbol);
+            Self::push_output(&mut result, symbol, output_length)?;
         }
 
         Ok(result)
+    }
+
+    /// Output buffer with a bounded initial reservation (see `MAX_OUTPUT_PREALLOC`).
+    fn new_output(output_length: usize) -> Result<Vec<u8>> {
+        let mut result = Vec::new();
+        result
+            .try_reserve(output_length.min(MAX_OUTPUT_PREALLOC))
+            .map_err(|_| ZiporaError::out_of_memory(output_length))?;
+        Ok(result)
+    }
+
+    /// Append a decoded symbol; growth beyond the initial reservation is amortized and an
+    /// allocation failure is reported as an error instead of aborting the process.
+    #[inline]
+    fn push_output(result: &mut Vec<u8>, symbol: u8, output_length: usize) -> Result<()> {
+        if result.len() == result.capacity() {
+            result
+                .try_reserve(1)
+                .map_err(|_| ZiporaError::out_of_memory(output_length))?;
+        }
+        result.push(symbol);
+        Ok(())
     }
 
     /// Parallel-stream decoding (following advanced approach)
@@ -608,8 +634,8 @@ impl<P: ParallelVariant> Rans64Decoder<P> {
             pos += length;
         }
         
-        // Decode each stream independently in interleaved fashion
-        let mut result = vec![0u8; output_length];
+        // Decode the streams in interleaved fashion
+        let mut result = Self::new_output(output_length)?;
         let mut stream_positions = vec![0usize; n_streams];
         
         // Initialize stream positions at the end of each stream's data (read backwards)
@@ -617,26 +643,17 @@ impl<P: ParallelVariant> Rans64Decoder<P> {
             stream_positions[i] = stream_data[i].len();
         }
         
-        // Build indices for each stream (same interleaved assignment as encoding)
-        let mut stream_indices = vec![Vec::new(); n_streams];
+        // Output index i belongs to stream i % n_streams (same interleaved assignment as
+        // encoding). The streams are independent, so taking one symbol from each stream in
+        // turn yields the output in order and the buffer only grows with decoded symbols.
         for i in 0..output_length {
             let stream_idx = i % n_streams;
-            stream_indices[stream_idx].push(i);
-        }
-        
-        // Decode each stream's symbols (in forward order since we encoded in reverse)
-        for stream_idx in 0..n_streams {
-            let indices = &stream_indices[stream_idx];
-            let mut stream_pos = stream_positions[stream_idx];
-            
-            for &output_idx in indices {
-                let symbol = self.decode_symbol(
-                    &mut states[stream_idx], 
-                    stream_data[stream_idx], 
-                    &mut stream_pos
-                )?;
-                result[output_idx] = symbol;
-            }
+            let symbol = self.decode_symbol(
+                &mut states[stream_idx], 
+                stream_data[stream_idx], 
+                &mut stream_positions[stream_idx]
+            )?;
+            Self::push_output(&mut result, symbol, output_length)?;
         }
         
         Ok(result)
